@@ -51,11 +51,24 @@ func (r *mwRun) faultyVacuum(s MWStep, where string, cutSec, modelCut int64, far
 	w := r.ws[s.W]
 	client := fmt.Sprintf("verif://w%d", s.W)
 	count := 0
+	nread := 0
 	r.store.Intercept = func(q *fakes3.Req) error {
-		if q.Client != client || !q.Mutating() {
+		if q.Client != client {
+			return nil
+		}
+		if !q.Mutating() {
+			// one failing read: the Mask-th LIST, or the (4*Mask)-th GET, of the vacuuming writer
+			if (s.VacFault == "nth-list" && q.Op == "LIST") || (s.VacFault == "nth-get" && q.Op == "GET") {
+				nread++
+				if (s.VacFault == "nth-list" && nread == s.Mask) || (s.VacFault == "nth-get" && nread == 4*s.Mask) {
+					return fakes3.ErrInjected
+				}
+			}
 			return nil
 		}
 		switch s.VacFault {
+		case "nth-list", "nth-get":
+			return nil
 		case "node-deletes":
 			if q.Op == "DELETE" && strings.Contains(q.Key, "/node/") {
 				return fakes3.ErrInjected
